@@ -222,7 +222,7 @@ class PortsConc(BaseEngine):
     name = 'ports_conc'
 
     def tiers(self, prop):
-        return {'quick': 40_000, 'thorough': 4_000_000}
+        return {'quick': 40_000, 'thorough': 1_500_000}
 
     # ------------ generation
     def gen(self, prop, seed, idx, tier):
